@@ -156,10 +156,15 @@ Definition enc_sobs (o : sobs) : sexp :=
 
 Definition p0 : pstate := mk_pstate true false.   (* the harness installs the hook once per process *)
 
-Definition obs_model (coded : bool) (h : list call) : list sobs :=
-  map abs_obs (fst (fst (run coded p0 init_tstate h))).
+(* a process in which nobody has installed the panic hook yet (the harness runs such a history in a child process) *)
+Definition p_nohook : pstate := mk_pstate false false.
 
-Definition obs_spec (h : list call) : list sobs := fst (fst (spec_run p0 init_astate h)).
+Definition obs_model_from (p : pstate) (coded : bool) (h : list call) : list sobs :=
+  map abs_obs (fst (fst (run coded p init_tstate h))).
+Definition obs_model := obs_model_from p0.
+
+Definition obs_spec_from (p : pstate) (h : list call) : list sobs := fst (fst (spec_run p init_astate h)).
+Definition obs_spec := obs_spec_from p0.
 
 Definition enc_obs_list (os : list sobs) : sexp := SList (sym "obs" :: map enc_sobs os).
 
@@ -231,6 +236,9 @@ Fixpoint cs_spec (acc : option bytes) (groups : list (list cs_op)) : list sexp :
 Definition run_C20 (spec : bool) (head : sexp) (args : list sexp) : option sexp :=
   if sym_is "ffi-history" head then
     option_map (fun h => enc_obs_list (if spec then obs_spec h else obs_model false h)) (dec_calls 0 args)
+  else if sym_is "ffi-history-nohook" head then
+    option_map (fun h => enc_obs_list (if spec then obs_spec_from p_nohook h else obs_model_from p_nohook false h))
+               (dec_calls 0 args)
   else if sym_is "ffi-history-coded" head then
     option_map (fun h => enc_obs_list (obs_model true h)) (dec_calls 0 args)
   else if sym_is "ffi-2threads" head then
